@@ -63,6 +63,11 @@ impl CaseOut {
     }
     pub fn fail(&mut self, key: impl Into<String>, msg: impl Into<String>) {
         let key = key.into();
+        if key.contains("verif-hooks: deadline passed") {
+            // slowness or a hang: never a verdict
+            self.discard("deadline-passed");
+            return;
+        }
         if key.contains("verif-hooks: fuel exhausted") && !self.fuel_is_violation {
             // without a reference run nobody knows whether the program terminates at all
             self.discard("fuel-exhausted");
